@@ -640,6 +640,9 @@ pub fn def(tier: Tier) -> PropertyDef {
 			SCase { cfg, s }
 		});
 		checks.push(pt(&format!("trend_signals_{name}"), tier.pick(60, 1500), strat, run));
+		// exactly representable lattice candles: ties between prices, averages and thresholds
+		let strat = (cfggen::config_strategy(name, GenOpts { wide: false, price_sources: true, nonneg_ma: false }), gen::lattice_candle_stream(tier.pick(200, 600))).prop_map(|(cfg, s)| SCase { cfg, s });
+		checks.push(pt(&format!("lattice_signals_{name}"), tier.pick(300, 6000), strat, run));
 	}
 	checks.extend(crate::fuzz_entry::corpus_checks("C06"));
 	PropertyDef {
